@@ -203,6 +203,7 @@ def run(ctx):
     k8_witness(ctx, root)
     glob_correspondence(ctx, root)
     unannotated_probe(ctx, root)
+    homonym_probe(ctx, root)
 
 
 def k8_witness(ctx, root):
@@ -319,6 +320,101 @@ def unannotated_probe(ctx, root):
             ctx.fail('a chain was built without a non-abstract class its config declares (no error)', case,
                      {'tasks': sorted(chain.tasks), 'inputs_of_down': sorted(map(str, chain.tasks['down'].input_tasks))})
         b.cleanup_module()
+
+
+def homonym_probe(ctx, root):
+    """edges are the DECLARED ones: (i) names are case-sensitive — an optional input `Summary` absent from the chain stays absent beside a task
+    `summary`, `raw:Table` and `clean:table` are two names; (ii) an input declared BY CLASS is that class: when the class is not in the chain,
+    a task of another class that happens to have the same name in another group (`legacy:features`) does not stand in — construction fails
+    for a required input, the default is used for an optional one"""
+    from taskchain import Task, Config
+    from taskchain.parameter import InputTaskParameter
+
+    class Summary(Task):
+        class Meta:
+            name = 'summary'
+
+        def run(self) -> int:
+            return 1
+
+    class RawTable(Task):
+        class Meta:
+            name = 'Table'
+            task_group = 'raw'
+
+        def run(self) -> int:
+            return 2
+
+    class CleanTable(Task):
+        class Meta:
+            name = 'table'
+            task_group = 'clean'
+
+        def run(self) -> int:
+            return 3
+
+    class Report(Task):
+        class Meta:
+            name = 'report'
+            input_tasks = ['Table', 'table']
+            parameters = [InputTaskParameter('Summary', default='no-summary')]
+
+        def run(self, Summary) -> list:
+            return [Summary, self.input_tasks['Table'].value, self.input_tasks['table'].value]
+    case = {'probe': 'names that differ in letter case'}
+    ctx.case(case); ctx.count('homonym-probe:case')
+    try:
+        ch = Config(root / 'homonym', name='c', data={'tasks': [Summary, RawTable, CleanTable, Report]}).chain()
+        v = ch['report'].value
+        if v != ['no-summary', 2, 3]:
+            ctx.fail('an input was bound to a task whose name differs in letter case', case, {'value': v})
+    except Exception as e:      # noqa
+        ctx.fail('a chain with task names that differ only in letter case cannot be built', case, f'{type(e).__name__}: {e}'[:200])
+
+    class Features(Task):
+        class Meta:
+            name = 'features'
+
+        def run(self) -> int:
+            return 10
+
+    class LegacyFeatures(Task):
+        class Meta:
+            name = 'features'
+            task_group = 'legacy'
+
+        def run(self) -> int:
+            return 20
+
+    class NeedsRequired(Task):
+        class Meta:
+            name = 'needs'
+            input_tasks = [Features]
+
+        def run(self, features) -> int:
+            return features
+
+    class NeedsOptional(Task):
+        class Meta:
+            name = 'maybe'
+            parameters = [InputTaskParameter(Features, default=-1)]
+
+        def run(self, features) -> int:
+            return features
+    case = {'probe': 'by-class input whose class is not in the chain, a homonym in another group is'}
+    ctx.case(case); ctx.count('homonym-probe:by-class')
+    try:
+        ch = Config(root / 'homonym2', name='c', data={'tasks': [LegacyFeatures, NeedsRequired]}).chain()
+        ctx.fail('a required by-class input whose class is not declared was bound to a task of another class (no error)', case,
+                 {'inputs': sorted(map(str, ch['needs'].input_tasks))})
+    except (ValueError, KeyError):
+        pass
+    try:
+        ch = Config(root / 'homonym3', name='c', data={'tasks': [LegacyFeatures, NeedsOptional]}).chain()
+        if ch['maybe'].value != -1:
+            ctx.fail('an optional by-class input whose class is not declared was bound to a task of another class', case, {'value': ch['maybe'].value})
+    except Exception as e:      # noqa
+        ctx.fail('a chain with an absent optional by-class input cannot be built', case, f'{type(e).__name__}: {e}'[:200])
 
 
 def search(ctx, divergences):
